@@ -167,7 +167,11 @@ def check_session(item, label, entry, market, handler, prequery=False):
     case = {'kind': 'session', 'item': item, 'label': label, 'entry': None if entry is None else entry.isoformat(),
             'prequery': prequery}
     universe = sl.make_universe(cfg)
-    if prequery:
+    if prequery == 'session':
+        # the universe object has already served a complete session that used signals (a strategy run before its
+        # equal-weight benchmark): who is a member when is still decided by the entry dates alone
+        sl.run_session(dict(cfg, signals={'lookbacks': [2]}), handler, universe=universe)
+    elif prequery:
         # the universe object has been consulted before the session (e.g. by the user, or by an earlier run)
         universe.get_assets(pd.Timestamp(end + datetime.timedelta(days=30)))
         universe.get_assets(pd.Timestamp(start - datetime.timedelta(days=30)))
@@ -266,6 +270,9 @@ def per_session_item(item):
             n += 1
             if not fails:
                 fails, _ = check_session(item, label, entry, market, handler, prequery=True)
+                n += 1
+            if not fails and n % 3 == 0:
+                fails, _ = check_session(item, label, entry, market, handler, prequery='session')
                 n += 1
             nb += 1 if b else 0
             labels.add((item['kind'], item['weekday'], label.rstrip('0123456789'), bool(b)))
